@@ -54,12 +54,12 @@ def _cid_rows(spec):
         rows.append(["d", "header", str(spec["header"])])
     if fmt == "fixed":
         rows.append(["d", "line delimiter", spec.get("line_delimiter", "lf")])
-        rows.append(["f", "id", "", "", "1", "Integer", "0%s9" % sep])
+        rows.append(["f", "id", "", "", "5" if spec.get("big") else "1", "Integer", "0%s%s" % (sep, "99999" if spec.get("big") else "9")])
         rows.append(["f", "name", "", "", "2", "Text", ""])
     else:
         rows.append(["d", "line delimiter", spec.get("line_delimiter", "lf")])
         rows.append(["d", "encoding", "utf-8"])
-        rows.append(["f", "id", "", "", "", "Integer", "0%s9" % sep])
+        rows.append(["f", "id", "", "", "", "Integer", "0%s%s" % (sep, "99999" if spec.get("big") else "9")])
         rows.append(["f", "name", "", "", "1%s2" % sep, "Text", ""])
     if spec.get("allowed"):
         rows.insert(1, ["d", "allowed characters", "32%s126" % sep])
@@ -114,6 +114,19 @@ def generate(seed, tier):
         else:
             ops.append({"op": "write", "data": data, "close": rng.choice([True, True, True, False, "late"]),
                         "target": rng.choice(["path", "stream"])})
+    if swarm.random() < 0.001:
+        # a data set with tens of thousands of distinct keys, then small ones that share some of its last keys:
+        # nothing a check remembers may depend on how much it has seen
+        spec["big"] = True
+        count = swarm.choice([32770, 33000, 40000, 65537])
+        datasets = {"A": {"count": count, "name": "a"},
+                    "B": [[str(count - 1), "b"], [str(count - 2), "a"], ["7", "c"]]}
+        names = sorted(datasets)
+        ops = [{"op": "read", "data": "A", "api": "Reader", "mode": swarm.choice(["raise", "continue"]), "stop_after": None,
+                "close": swarm.choice(["now", "never"]), "source": "path", "create": "late", "prepass": None},
+               swarm.choice([{"op": "read", "data": "B", "api": "Reader", "mode": "yield", "stop_after": None, "close": "now",
+                              "source": "path", "create": "late", "prepass": None},
+                             {"op": "write", "data": "B", "close": True, "target": "stream"}])]
     # under 'any' every stored data set may use its own line ending
     eols = {name: swarm.choice(["\n", "\r\n", "\r"]) for name in names}
     return {"io": simfs.IoConfig.draw(swarm), "cid": spec, "datasets": datasets, "ops": ops, "eols": eols}
@@ -162,11 +175,19 @@ def sweep_slice(tier, start, count):
                "datasets": {"A": [["1", "a"], ["2", "b"]], "B": [["1", "a"], ["1", "c"], ["3", "b"]]}, "ops": ops}
 
 
+def _rows(table):
+    """A data set is a list of rows or, for the rare big ones, {"count": N, "name": x}: N rows with the ids 0..N-1."""
+    if isinstance(table, dict):
+        return [[str(number), table["name"]] for number in range(table["count"])]
+    return table
+
+
 def _data_bytes(spec, table, eol="\n"):
+    table = _rows(table)
     delimiter = spec.get("line_delimiter", "lf")
     eol = {"lf": "\n", "crlf": "\r\n"}.get(delimiter, eol)
     if spec["format"] == "fixed":
-        return lib.render_fixed(table, [1, 2], eol).encode("utf-8")
+        return lib.render_fixed(table, [5 if spec.get("big") else 1, 2], eol).encode("utf-8")
     return lib.render_delimited(table, ",", '"', eol).encode("utf-8")
 
 
@@ -246,7 +267,7 @@ class _World(object):
         target = "out%d.txt" % index if op.get("target", "path") == "path" else "<stream>"
         run = lib.WriteRun(self.cid, self.fs, target)
         if run.writer is not None:
-            for number, row in enumerate(self.scenario["datasets"][op["data"]]):
+            for number, row in enumerate(_rows(self.scenario["datasets"][op["data"]])):
                 run.write_row(row)
                 if number == 0:
                     self.close_late_ones()
@@ -319,7 +340,7 @@ def execute(scenario):
     seen_keys = set()
     for index, op in enumerate(ops):
         outcome = shared_outcomes[index]
-        table = scenario["datasets"][op["data"]]
+        table = _rows(scenario["datasets"][op["data"]])
         keys = {row[0] for row in table}
         if index > 0:
             previous = ops[index - 1]
@@ -375,6 +396,14 @@ def execute(scenario):
 def candidates(scenario):
     for candidate in lib.drop_candidates(scenario, ["ops"], minimum=1):
         yield candidate
+    if scenario["cid"].get("big"):
+        # a big data set shrinks by halving, never row by row
+        for name in sorted(scenario["datasets"]):
+            table = scenario["datasets"][name]
+            if isinstance(table, dict) and table["count"] > 1:
+                for count in (table["count"] // 2, table["count"] - 1):
+                    yield lib.with_value(scenario, ["datasets", name, "count"], count)
+        return
     for name in sorted(scenario["datasets"]):
         for candidate in lib.drop_candidates(scenario, ["datasets", name]):
             yield candidate
